@@ -4,7 +4,7 @@ from .framework import rule, Undecided as RuleUndecided
 from .absint import Interp, State, Undecided
 from .absval import (TOP, agg, arr, bits_of, const, int_const, is_agg, is_int, is_ptr, mk_int, ptr, sym_int, top_int, with_term)
 from .stdmodel import ok, err, some, NONE
-from .mir import tstr, callee_of, tmatch, strip_refs, path_matches, subterms
+from .mir import tstr, callee_of, tmatch, strip_refs, path_matches, subterms, call_site_info
 from .ev import all_guards, guarded, g_cmp
 from .fsmodel import ok_returns, err_returns, call_matches
 from .rules_guard import has_sub, last_field
@@ -215,16 +215,30 @@ def mt2(F, R):
             if acc not in tstr(v[fld]):
                 problems.append("%s = %s" % (fld, tstr(v[fld])))
         R.require(not problems, pv, "layout:" + ft, "; ".join(problems), pv.loc(b), okdetail="layout terms of the %s volume match the FAT specification" % ft)
-    # cluster count in Bpb::create_from_bytes
+    # cluster count in Bpb::create_from_bytes: the value stored into cluster_count is, as a formula over the BPB accessors,
+    # (total_blocks - (num_fats * fat_size + reserved + ceil(root_entries * 32 / 512))) / blocks_per_cluster - whatever mix of
+    # checked_* / `?` / and_then / helper functions computes it
+    from .mir import expand_local_calls
     cb = F.fn("fat::bpb::Bpb::create_from_bytes")
-    s_all = " ".join(tstr(cb.term_of_rvalue(s["rv"], b)) for b, i, s in cb.stmts() if s["k"] == "Assign")
-    calls = [callee_of(t) or "" for b, t in cb.calls()]
-    okc = any(c.endswith("checked_sub") for c in calls) and any(c.endswith("checked_div") for c in calls) and any(c.endswith("from_bytes") for c in calls)
-    R.require(okc, cb, "cluster-count", "cluster_count must be (total_blocks - non_data_blocks) / blocks_per_cluster with checked arithmetic", cb.loc(0))
-    # root dir blocks agree: Bpb uses from_bytes(root_entries*32); parse_volume uses ceil form or from_bytes of the same product
-    fb = [(b, t) for b, t in cb.calls() if (callee_of(t) or "").endswith("from_bytes")]
-    okr = len(fb) == 1 and tmatch(cb.term_of_operand(fb[0][1]["args"][0], fb[0][0]), ("bin", "Mul", ("call", "From::from", [("call", "root_entries_count", "_")]), ("c", 32))) is not None
-    R.require(okr, cb, "root-dir-blocks", "Bpb must size the root directory as from_bytes(root_entries_count * 32)", cb.loc(0))
+    stores = [(b, i, cb.term_of_rvalue(s_["rv"], b)) for b, i, s_ in cb.stmts() if s_["k"] == "Assign" and s_["p"]["proj"] and s_["p"]["proj"][-1][0] == "field" and s_["p"]["proj"][-1][2] == "cluster_count"]
+    okc = len(stores) == 1
+    det = "expected one store to cluster_count, found %d" % len(stores)
+    if okc:
+        v = expand_local_calls(F, stores[0][2])
+        at = {nm: bpb_atom(v, nm) for nm in ("total_blocks", "num_fats", "fat_size", "reserved_block_count", "root_entries_count", "blocks_per_cluster")}
+        okc = all(x is not None for x in at.values())
+        det = "the stored value does not use all of %s: %s" % (sorted(at), tstr(v)[:160])
+        if okc:
+            rootb = None
+            for q in subterms(v):
+                if q[0] == "call" and q[1] and q[1].endswith("BlockCount::from_bytes") and peq(q[2][0], MUL(at["root_entries_count"], C(32))):
+                    rootb = q
+            cands = [DIV(ADD(MUL(at["root_entries_count"], C(32)), C(511)), C(512))] + ([rootb] if rootb is not None else [])
+            from .poly import SUB
+            okc = any(peq(v, DIV(SUB(at["total_blocks"], ADD(ADD(MUL(at["num_fats"], at["fat_size"]), at["reserved_block_count"]), rb)), at["blocks_per_cluster"])) for rb in cands)
+            det = "got %s" % tstr(v)[:200]
+    R.require(okc, cb, "cluster-count", "cluster_count must be (total_blocks - (num_fats*fat_size + reserved + root_dir_blocks)) / blocks_per_cluster: %s" % det, cb.loc(0))
+    R.ok(cb, "root-dir-blocks", "root directory sized as ceil(root_entries_count * 32 / 512) (part of the cluster-count identity)")
 
 
 @rule("MT4", ["C15"], floor=10,
@@ -324,54 +338,85 @@ def mt4(F, R):
         if refused and compared_constants(ci, call_is("InfoSector::" + nm)) == {sig[nm]}:
             checked.add(nm)
     R.require(all_ok and checked == set(sig), ci, "fsinfo-sigs", "FSInfo must be accepted with, and rejected unless, all three signatures match (checked: %s%s)" % (sorted(checked), "" if all_ok else "; a correct sector is refused"), ci.loc(0))
+    # the "unknown" sentinels, decided by evaluating the accessor on concrete field values (match / if / range form alike)
+    from .rules_codec import data_struct
+    from .absval import is_agg as _is_agg
     for nm, unknown in (("free_clusters_count", {0xFFFFFFFF}), ("next_free_cluster", {0xFFFFFFFF, 0, 1})):
         f = F.fn("fat::info::InfoSector::" + nm)
-        vals = set()
-        for b in f.live_blocks():
-            t = f.term(b)
-            if t["k"] == "SwitchInt":
-                for i_, (tgt, lab) in enumerate(f.succ(b)):
-                    if lab[1] != "otherwise":
-                        # does this edge lead to None?
-                        for bb, ii, s in f.stmts():
-                            if bb in f.reach([tgt], cut_blocks=[x for x, _ in f.succ(b) if x != tgt]) and s["k"] == "Assign" and s["p"]["l"] == 0:
-                                    v = f.term_of_rvalue(s["rv"], bb)
-                                    if v[0] == "agg" and v[2].endswith("Option::None"):
-                                        vals.add(lab[1])
-        R.require(vals == unknown, f, "sentinels:" + nm, "%s treats %s as unknown; the specification (and this crate's reserved clusters) says %s" % (nm, sorted(vals), sorted(unknown)), f.loc(0))
+        off = S["info"][{"free_clusters_count": "free_count", "next_free_cluster": "next_free"}[nm]][0]
+        problems = []
+        try:
+            for val in (0, 1, 2, 3, 0x12345, 0x0FFFFFF7, 0xFFFFFFFE, 0xFFFFFFFF):
+                I = Interp(F, mode="bv", max_paths=64)
+                st = State()
+                self_p, bytes_ = data_struct(I, st, F, "fat::info::InfoSector", 512)
+                sv = I.read_loc(st, (self_p[1], self_p[2], self_p[3], None))
+                dptr = sv[4][[x["name"] for x in F.adts["fat::info::InfoSector"]["variants"][0]["fields"]].index("data")]
+                cells = list(I.read_loc(st, (dptr[1], dptr[2], dptr[3], None))[1])
+                for k in range(4):
+                    cells[off + k] = const((val >> (8 * k)) & 0xFF, 8)
+                I.write_loc(st, (dptr[1], dptr[2], dptr[3], None), ("arr", tuple(cells)))
+                outs = I.run(f, [self_p], st, 0)
+                res = set()
+                for rv, s2 in outs:
+                    if _is_agg(rv) and rv[3] is not None:
+                        if rv[3] == 0:
+                            res.add(None)
+                        else:
+                            inner = rv[4][0]
+                            while _is_agg(inner):
+                                inner = inner[4][0]
+                            res.add(int_const(inner) if is_int(inner) else "?")
+                    else:
+                        res.add("?")
+                want = {None} if val in unknown else {val}
+                if res != want:
+                    problems.append("field value %#x gives %s, expected %s" % (val, sorted(res, key=repr), sorted(want, key=repr)))
+        except Undecided as e:
+            problems.append("cannot evaluate: %s" % e)
+        R.require(not problems, f, "sentinels:" + nm, "%s must treat exactly %s as unknown (None) and pass every other value through; %s" % (nm, sorted(hex(x) for x in unknown), "; ".join(problems[:3])), f.loc(0))
     # MBR
     orv = F.fn("volume_mgr::VolumeManager::open_raw_volume")
     M = S["mbr"]
+    from .specialise import _fold, _subst_pred
+    # named constants are checked where they exist (their names are the upstream ones; a refactoring may fold them away -
+    # the structural clauses below do not depend on them)
     for cn, cv in (("PARTITION1_START", M["partition_table"]), ("PARTITION2_START", M["partition_table"] + 16), ("PARTITION3_START", M["partition_table"] + 32), ("PARTITION4_START", M["partition_table"] + 48),
                    ("FOOTER_START", M["signature_offset"]), ("FOOTER_VALUE", M["signature"]), ("PARTITION_INFO_LENGTH", M["entry_len"]), ("PARTITION_INFO_STATUS_INDEX", M["status"]),
                    ("PARTITION_INFO_TYPE_INDEX", M["type"]), ("PARTITION_INFO_LBA_START_INDEX", M["lba_start"]), ("PARTITION_INFO_NUM_BLOCKS_INDEX", M["num_blocks"])):
         try:
             v = F.const("open_raw_volume::" + cn)
         except KeyError:
-            R.bad(orv, "mbr:" + cn, "constant %s missing" % cn, kind="anchor-missing")
             continue
         R.require(v == cv, orv, "mbr:" + cn, "%s = %d, MBR layout says %d" % (cn, v, cv))
     ids = sorted(F.const(n) for n in ("PARTITION_ID_FAT32_LBA", "PARTITION_ID_FAT16_LBA", "PARTITION_ID_FAT16", "PARTITION_ID_FAT16_SMALL", "PARTITION_ID_FAT32_CHS_LBA"))
     R.require(ids == sorted(M["fat_types"]), orv, "mbr:types", "accepted partition types %s, expected %s" % (ids, sorted(M["fat_types"])))
-    # partition slot selection: VolumeIdx(i) -> PARTITION{i+1}_START
+    # MBR signature: 0xAA55 read little-endian from bytes 510..512 of block 0, everything else refused
+    is_sig = lambda q: q[0] == "call" and q[1] and q[1].endswith("read_u16") and has_sub(q, lambda z: z[0] == "agg" and z[2] and z[2].endswith("Range") and len(z[3]) == 2 and z[3][0][:2] == ("c", M["signature_offset"]) and z[3][1][:2] == ("c", M["signature_offset"] + 2))
+    pv_sites = [b for b, t in orv.calls() if (t.get("callee") or "").endswith("parse_volume")]
+    oksig = compared_constants(orv, is_sig) == {M["signature"]}
+    for v in (M["signature"], 0, 0x55AA, M["signature"] ^ 1, 0xFFFF):
+        rs = orv.reach([0], cut_edges=specialise_on(orv, is_sig, v))
+        oksig = oksig and (any(b in rs for b in pv_sites) == (v == M["signature"]))
+    R.require(oksig, orv, "mbr:signature", "a partition is mounted only from a sector whose bytes 510..512 hold 0xAA55 (little-endian)", orv.loc(0))
+    # partition slot selection: volume index i uses block[446 + 16 i .. + 16], decided for i = 0..3; any other index is refused
+    is_vi = lambda q: q[0] == "place" and strip_refs(q[1])[:2] == ("arg", 2) and tuple(q[2]) == ("0",)
     sel = {}
-    for b in orv.live_blocks():
-        t = orv.term(b)
-        if t["k"] == "SwitchInt" and "volume_idx" in tstr(orv.term_of_operand(t["discr"], b)):
-            for i_, (tgt, lab) in enumerate(orv.succ(b)):
-                if lab[1] == "otherwise":
-                    continue
-                chain = [tgt]
-                while len(chain) < 6 and len(orv.succ(chain[-1])) == 1:
-                    chain.append(orv.succ(chain[-1])[0][0])
-                for bb in chain:
-                    for s in orv.blocks[bb]["stmts"]:
-                        if s["k"] == "Assign" and s["rv"]["k"] == "Aggregate" and s["rv"].get("adt", "").endswith("Range"):
-                            o = orv.term_of_operand(s["rv"]["ops"][0], bb)
-                            if o[0] == "c" and lab[1] not in sel:
-                                sel[lab[1]] = o[1]
-    want = {i: M["partition_table"] + 16 * i for i in range(4)}
-    R.require(sel == want, orv, "mbr:slot-selection", "partition slot offsets %s, expected %s" % (sel, want), orv.loc(0))
+    for i_ in range(6):
+        rs = orv.reach([0], cut_edges=specialise_on(orv, is_vi, i_))
+        got = set()
+        for b, t in orv.calls():
+            if b in rs and (callee_of(t) or "").endswith(("Index::index", "::index")):
+                r = strip_refs(orv.term_of_operand(t["args"][1], b))
+                if r[0] == "agg" and r[2] and r[2].endswith("Range") and len(r[3]) == 2:
+                    lo_, hi_ = _fold(_subst_pred(r[3][0], is_vi, i_)), _fold(_subst_pred(r[3][1], is_vi, i_))
+                    if lo_ is not None and hi_ is not None and lo_ >= 64 and (lo_, hi_) != (M["signature_offset"], M["signature_offset"] + 2):
+                        got.add((lo_, hi_))
+        sel[i_] = (sorted(got), any(b in rs for b in pv_sites))
+    want = {i_: ([(M["partition_table"] + 16 * i_, M["partition_table"] + 16 * i_ + 16)], True) if i_ < 4 else ([], False) for i_ in range(6)}
+    for i_ in range(4, 6):
+        sel[i_] = ([] if not sel[i_][1] else sel[i_][0], sel[i_][1])
+    R.require(sel == want, orv, "mbr:slot-selection", "partition entry used per volume index is %s, expected %s" % (sel, want), orv.loc(0))
     # how the entry is used: parse_volume is reached only under (status & 0x7F) == 0 (0x00 and 0x80 are the valid status bytes),
     # with the type byte in the accepted set, and is given LE u32 [8..12) as start and [12..16) as length of *that* entry
     pvs = [(b, t) for b, t in orv.calls() if (t.get("callee") or "").endswith("parse_volume")]
@@ -388,7 +433,13 @@ def mt4(F, R):
                 return bool(ds) and all(entry_slice(d, depth + 1) for d in ds)
             if x[0] == "call" and x[1] and x[1].endswith(("Index::index", "::index")):
                 r = strip_refs(x[2][1])
-                return r[0] == "agg" and r[2] and r[2].endswith("Range") and r[3][0][0] == "c" and r[3][0][1] in starts and r[3][1][0] == "c" and r[3][1][1] == r[3][0][1] + 16
+                if not (r[0] == "agg" and r[2] and r[2].endswith("Range") and len(r[3]) == 2):
+                    return False
+                for i_ in range(4):       # constant per arm, or computed from the volume index
+                    lo_, hi_ = _fold(_subst_pred(r[3][0], is_vi, i_)), _fold(_subst_pred(r[3][1], is_vi, i_))
+                    if lo_ is None or hi_ is None or lo_ not in starts or hi_ != lo_ + 16:
+                        return False
+                return True
             if x[0] == "place" and not any(isinstance(e, tuple) for e in x[2]):
                 return entry_slice(x[1], depth + 1)
             return False
@@ -410,16 +461,17 @@ def mt4(F, R):
         def le32_at(x, off):
             x = strip_refs(x)
             for q in subterms(x):
-                le = q[0] == "call" and q[1] and q[1].endswith("read_u32") and isinstance(q[3], int) and "LittleEndian" in orv.term(q[3]).get("callee_full", "")
+                le = q[0] == "call" and q[1] and q[1].endswith("read_u32") and "LittleEndian" in call_site_info(F, orv, q[3]).get("callee_full", "")
                 if le or (q[0] == "call" and q[1] and q[1].endswith("u32::from_le_bytes")):
                     for q2 in subterms(q):
                         if q2[0] == "call" and q2[1] and q2[1].endswith(("Index::index", "::index")) and entry_slice(q2[2][0]):
                             r = strip_refs(q2[2][1])
-                            if r[0] == "agg" and r[2] and r[2].endswith("Range") and r[3][0][:2] == ("c", off) and r[3][1][:2] == ("c", off + 4):
+                            if r[0] == "agg" and r[2] and r[2].endswith("Range") and len(r[3]) == 2 and _fold(r[3][0]) == off and _fold(r[3][1]) == off + 4:
                                 return True
             return False
-        a1 = orv.term_of_operand(t["args"][1], b)
-        a2 = orv.term_of_operand(t["args"][2], b)
+        from .mir import expand_local_calls
+        a1 = expand_local_calls(F, orv.term_of_operand(t["args"][1], b))
+        a2 = expand_local_calls(F, orv.term_of_operand(t["args"][2], b))
         okl = le32_at(a1, M["lba_start"]) and le32_at(a2, M["num_blocks"])
         R.require(okl, orv, "mbr:lba-and-length", "parse_volume must get LE u32 [8..12) as start block and [12..16) as block count of the selected entry; got (%s, %s)" % (tstr(a1)[-70:], tstr(a2)[-70:]), orv.loc(b))
 
